@@ -3,6 +3,11 @@ import PyYetiVerif.Lemmas.Op4File
 import PyYetiVerif.Lemmas.Op4Bytes
 import PyYetiVerif.Lemmas.Op4AsciiPuts
 import PyYetiVerif.Lemmas.Op4AsciiHalf
+import PyYetiVerif.Lemmas.Op4Coo
+import PyYetiVerif.Lemmas.Op4Input
+import PyYetiVerif.Lemmas.Op4ReadBack
+import PyYetiVerif.Lemmas.Op4AsciiDir
+import PyYetiVerif.Lemmas.Op4AsciiCoo
 /-!
 # C04 — OUTPUT4 write followed by read is the identity
 
@@ -20,11 +25,20 @@ at the level of the 32-bit word stream of one column record (either byte order),
 at the level of the word stream of a file, `file_roundtrip_bytes` at the level of bytes with names and
 format detection.  For ASCII see the second half of the file.
 
-The two places where the unchanged code does **not** satisfy the property are explicit:
+The places where the unchanged code does **not** satisfy the property are explicit:
 * `pack_fits_i32`: the packed nonbigmat string header fits `struct.pack('i', …)` iff
   `L + 1 < 32768`; `nonbigmat_overflow_example` is the 16384-row real string (finding F2);
 * `fmtE_width`: a formatted value has the announced width `digits + 7` iff it is not a negative
   value with a three-digit exponent; `ascii_overflow_example` is `-2.5e-120` (finding F3).
+(Finding F49 — the record length of a scipy.sparse input in the binary dense layout was computed in numpy int32
+scalars and wrapped from a 2 GiB column record on — is repaired in /repo (`s = int(…)`, `e = int(…)`): the model
+follows the repaired code, `write_sparse_eq_write_dense` holds without any size hypothesis, and the oracle
+`_oracle_f49` of the thorough tier guards the regression.)
+
+Second half of the file (after the ASCII half): the writer's true domain (`write_domain`,
+`file_roundtrip_binary_domain`), the sparse views of the readers (`coo_view_correct`, `sparse_auto_rule`, ASCII:
+`sparse_views_ascii`), sparse inputs (`write_sparse_eq_write_dense`), `write` on its arguments
+(`write_input_normalised`), `float(decimal)` (`read_back_bits*`), `dir` on ASCII files (`dir_matches_load_ascii`).
 -/
 namespace PyYetiVerif.C04
 open PyYetiVerif.Op4 PyYetiVerif.Op4A PyYetiVerif.Generated.Op4Consts
@@ -432,5 +446,424 @@ example : fields 3 3 "abcdefgh".toList = ["abc".toList, "def".toList, "gh".toLis
     pyFloat? " -2.50E-120".toList = some { neg := true, man := 250, exp := -122 } ∧
     pyInt? "   -12 \n".toList = some (-12) := by
   decide +kernel
+
+/-! ## The true domain, the sparse views, sparse inputs
+
+`Model/Op4Sparse.lean` adds: `writeFileWords` (the binary writer with every `struct.pack('i', …)` checked),
+the writers' scipy.sparse input branches (`encMatWordsSp`, `encMatAsciiSp`), and `cooToDense`
+(`coo_matrix(...).toarray()`). -/
+
+/-- **The writer's domain.**  `writeFileWords` succeeds only if every dimension is at most `2^31 - 1`
+(`ValueError` above), `cols + 1`, `form` and every column record length `recLen` fit a signed 32-bit integer
+(`struct.error` otherwise: Python / int64 arithmetic on the ndarray path), and the nonbigmat strings fit
+(`file_writes_iff`); and then it writes what `encFileWords` writes. -/
+theorem write_domain (e : Endian) (ms : List (Layout × Mat)) (ws : List Nat) (h : writeFileWords e ms = .ok ws) :
+    encFileWords e ms = some ws ∧ ∀ p ∈ ms, p.2.rows < 2 ^ 31 ∧ p.2.cols.length + 1 < 2 ^ 31 ∧ p.2.form < 2 ^ 31 ∧
+      ∀ col ∈ p.2.cols, recLen p.1 p.2.cplx col < 2 ^ 31 :=
+  writeFileWords_ok e ms ws h
+
+/-- the record length is what the column record announces: `12 + 8·elems` for a dense record (`elems` = first
+to last non-zero row, times 2 for complex), `4·(3 + nwords)` for the two sparse layouts -/
+theorem recLen_spec (cplx : Bool) (col : List Entry) (s : Nat) (tl : List Nat) (h : nzIdx cplx col = s :: tl) :
+    recLen .dense cplx col = 3 * 4 + ((s :: tl).getLast (by simp) - s + 1) * mult cplx * 8 ∧
+      recLen .bigmat cplx col = (3 + nwordsBig cplx (strings cplx col)) * 4 ∧
+      recLen .nonbigmat cplx col = (3 + nwordsNonbig cplx (strings cplx col)) * 4 := by
+  refine ⟨?_, (recLen_sparse .bigmat cplx col s tl h).1, (recLen_sparse .bigmat cplx col s tl h).2⟩
+  simp only [recLen]
+  split
+  · next h' => rw [h] at h'; cases h'
+  · next s' tl' h' => rw [h] at h'; cases h'; rfl
+
+/-- **file_roundtrip_binary on the true domain** (replaces `rows < 2^28` of `file_roundtrip_binary` by what the
+writer really needs): whenever the checked writer succeeds on matrices whose columns have `rows` entries and
+whose name bytes are bytes, the reader decodes the words to one `Dec` per matrix, in order, with `DecOf` (name
+field, shape, form, type, puts that rebuild `decCol`), and moreover the column reader `_get_funcs` chose
+(`layOf`), what `sparse=None` resolves to (`autoOf`) and the puts themselves are the stated ones. -/
+theorem file_roundtrip_binary_domain (e : Endian) (ms : List (Layout × Mat)) (ws : List Nat)
+    (hcols : ∀ p ∈ ms, (∀ col ∈ p.2.cols, col.length = p.2.rows) ∧ (∀ b ∈ p.2.name, b < 256) ∧
+      (p.1 = .nonbigmat → p.2.rows < rows4bigmat))
+    (hwr : writeFileWords e ms = .ok ws) :
+    ∃ ds, rdFile e (ws.length + 1) ws = some ds ∧ List.Forall₂ (DecOfX e) ms ds := by
+  obtain ⟨henc, hdom⟩ := writeFileWords_ok e ms ws hwr
+  refine rdFile_encX e ms ws (ws.length + 1) henc (by have := encFileWords_length e ms ws henc; omega) ?_
+  intro p hp
+  obtain ⟨h1, h2, h3, h4⟩ := hdom p hp
+  exact ⟨⟨(hcols p hp).1, h1, h2, h3, (hcols p hp).2.1, h4⟩, (hcols p hp).2.2⟩
+
+/-- the same at the level of bytes: `decodeBytes` of the bytes written on the true domain is `canonFile` -/
+theorem file_roundtrip_bytes_domain (e : Endian) (ms : List (Layout × Mat)) (bytes : List Nat) (hne : ms ≠ [])
+    (hw : ∀ p ∈ ms, p.2.WfDB p.1 ∧ (p.1 = .nonbigmat → p.2.rows < rows4bigmat))
+    (henc : encFileBytes e ms = some bytes) :
+    decodeBytes bytes = some (canonFile ms) := by
+  unfold encFileBytes at henc
+  cases hws : encFileWords e ms with
+  | none => rw [hws] at henc; cases henc
+  | some ws =>
+    rw [hws] at henc
+    simp only [Option.map_some, Option.some.injEq] at henc
+    subst henc
+    have hlt := encFileWords_lt32' e ms ws (fun p hp => (hw p hp).1) hws
+    obtain ⟨ds, hds, hdecs⟩ := rdFile_encX e ms ws (ws.length + 1) hws
+      (by have := encFileWords_length e ms ws hws; omega) (fun p hp => ⟨(hw p hp).1.wf, (hw p hp).2⟩)
+    obtain ⟨ws', hws'⟩ : ∃ ws', ws = 24 :: ws' := by
+      cases ms with
+      | nil => exact absurd rfl hne
+      | cons p t =>
+        obtain ⟨lay, m⟩ := p
+        simp only [encFileWords] at hws
+        cases ha : encMatWords e lay m with
+        | none => simp [ha] at hws
+        | some a =>
+          cases hb : encFileWords e t with
+          | none => simp [ha, hb] at hws
+          | some b =>
+            simp only [ha, hb, Option.bind_eq_bind, Option.bind_some, Option.some.injEq] at hws
+            rw [← hws, encMatWords_eq e lay m a ha]
+            simp only [headerWords, hdrReclen, List.cons_append, List.append_assoc]
+            exact ⟨_, rfl⟩
+    unfold decodeBytes
+    rw [hws', decodeFormat_enc e ws', ← hws']
+    simp only [wordsOfBytes_bytesOfWords e ws hlt, hds]
+    exact toRMats_decs ms ds 0 (decsOf_of_X e ms ds hdecs) fun p hp => ⟨(hw p hp).1.name_ident, (hw p hp).1.name_len⟩
+
+/-- **sparse_auto_rule.**  What `sparse=None` returns for a matrix written in layout `lay`
+(`DecOfX … d → d.sparseAuto = autoOf lay m`, `file_roundtrip_binary_domain`): a sparse matrix iff the layout is
+bigmat and the matrix has rows, or nonbigmat and the matrix is not all zero; never for the dense layout.  In
+the remaining cases (`autoOf = false`) the written words **are** those of the dense layout, so no reader could
+tell: the rule is "dense iff the file is a dense-layout file". -/
+theorem sparse_auto_rule (e : Endian) (lay : Layout) (m : Mat) (hlen : ∀ col ∈ m.cols, col.length = m.rows) :
+    (autoOf lay m = true ↔ (lay = .bigmat ∧ 0 < m.rows) ∨
+        (lay = .nonbigmat ∧ ∃ col ∈ m.cols, nzIdx m.cplx col ≠ [])) ∧
+      (autoOf lay m = false → encMatWords e lay m = encMatWords e .dense m) := by
+  constructor
+  · cases lay
+    · simp [autoOf]
+    · simp [autoOf]
+    · simp [autoOf, List.any_eq_true]
+  · intro h
+    cases lay
+    · rfl
+    · have hr : m.rows = 0 := by simpa [autoOf] using h
+      have hz : ∀ col ∈ m.cols, nzIdx m.cplx col = [] := by
+        intro col hcol
+        have hl := hlen col hcol
+        rw [hr] at hl
+        have : col = [] := List.length_eq_zero_iff.1 hl
+        subst this
+        rfl
+      have h1 := (recsOf_eq_nil_iff e .bigmat m.cplx m.cols 0).2 hz
+      have h2 := (recsOf_eq_nil_iff e .dense m.cplx m.cols 0).2 hz
+      simp only [encMatWords, Option.some.injEq]
+      have e1 := encCols_recs e .bigmat m.cplx m.cols 0
+      have e2 := encCols_recs e .dense m.cplx m.cols 0
+      simp only [encCol] at e1 e2
+      rw [e1, e2, h1, h2]
+      simp [headerWords, hr]
+    · have hz := (autoOf_nonbigmat_false m).1 h
+      have h1 := (recsOf_eq_nil_iff e .nonbigmat m.cplx m.cols 0).2 hz
+      have h2 := (recsOf_eq_nil_iff e .dense m.cplx m.cols 0).2 hz
+      have hfit : m.cols.all (stringsFit m.cplx) = true := by
+        rw [List.all_eq_true]
+        intro col hcol
+        simp [stringsFit, strings_nil m.cplx col (hz col hcol)]
+      simp only [encMatWords, hfit, if_true, Option.some.injEq]
+      have e1 := encCols_recs e .nonbigmat m.cplx m.cols 0
+      have e2 := encCols_recs e .dense m.cplx m.cols 0
+      simp only [encCol] at e1 e2
+      rw [e1, e2, h1, h2]
+
+/-- which rows of a column the file stores: the sparse layouts exactly the non-zero rows (`±0.0` is never
+stored), the dense layout every row from the first to the last non-zero one — explicit zeros included -/
+theorem storedIdx_spec (lay : Layout) (cplx : Bool) (col : List Entry) (r : Nat) :
+    (lay ≠ .dense → (r ∈ storedIdx lay cplx col ↔ ∃ x, col[r]? = some x ∧ x.isZero cplx = false)) ∧
+      (∀ s tl, nzIdx cplx col = s :: tl →
+        (r ∈ storedIdx .dense cplx col ↔ s ≤ r ∧ r ≤ (s :: tl).getLast (by simp))) ∧
+      (nzIdx cplx col = [] → storedIdx lay cplx col = []) := by
+  refine ⟨?_, ?_, storedIdx_zero lay cplx col⟩
+  · intro h
+    cases lay
+    · exact absurd rfl h
+    · simp only [storedIdx]; exact mem_nzIdx cplx col r
+    · simp only [storedIdx]; exact mem_nzIdx cplx col r
+  · intro s tl h
+    have hsorted := (nzIdxFrom_sorted cplx col 0).1
+    have hs_le : s ≤ (s :: tl).getLast (by simp) := by
+      have := (sorted_bounds (nzIdx cplx col) (by rw [h]; simp) hsorted s (by rw [h]; exact List.mem_cons_self)).2
+      simpa [h] using this
+    simp only [storedIdx, h, List.mem_range'_1]
+    omega
+
+/-- **coo_view_correct.**  For a file written on the true domain, `op4.load(sparse=True)` returns per matrix
+the COO triplets `cooList`: column by column, for every stored row `r` (`storedIdx_spec`) the triplet
+`(r, c, value)`, rows ascending — the value being the written bit pattern (`cooEntry`: for complex the parts
+pass through `re + 1j*im`).  And `.toarray()` of it (`cooToDense`, for any addition with `0.0 + v = pz v`) is
+the dense read `decCol` with `-0.0 ↦ +0.0`. -/
+theorem coo_view_correct (e : Endian) (ms : List (Layout × Mat)) (ds : List Dec)
+    (h : List.Forall₂ (DecOfX e) ms ds) :
+    List.Forall₂ (fun (p : Layout × Mat) (d : Dec) =>
+      cooOfPuts p.2.cplx d.puts = cooList p.1 p.2.cplx 0 p.2.cols ∧
+      ((∀ col ∈ p.2.cols, col.length = p.2.rows) →
+        ∀ add : Entry → Entry → Entry, (∀ v, add (0, 0) v = pz v) →
+        cooToDense add p.2.rows p.2.cols.length (cooOfPuts p.2.cplx d.puts) =
+          p.2.cols.map fun col => (decCol p.1 p.2.cplx col).map fun y => pz (cooEntry p.2.cplx y))) ms ds := by
+  induction h with
+  | nil => exact List.Forall₂.nil
+  | @cons p d ps ds hd _ ih =>
+    refine List.Forall₂.cons ?_ ih
+    obtain ⟨_, _, _, hputs⟩ := hd
+    have h1 : cooOfPuts p.2.cplx d.puts = cooList p.1 p.2.cplx 0 p.2.cols := by
+      rw [hputs]; exact recsOf_coo e p.1 p.2.cplx p.2.cols 0
+    refine ⟨h1, ?_⟩
+    intro hlen add hadd
+    rw [h1]
+    exact cooToDense_cooList add hadd p.1 p.2.cplx p.2.rows p.2.cols hlen
+
+/-- **write_sparse_eq_write_dense.**  For every scipy.sparse input (stored triplets in any order, duplicates,
+explicit zeros; `add` is the addition that sums duplicates), every layout and byte order: the *checked* binary
+writer on the sparse input (`writeOneWords … (.sp …)`: the `else  # sparse matrix` branches with every
+`struct.pack` checked) does exactly what the checked ndarray writer `writeMatWords` does on the ndarray
+`denseMat` — the found value where `sp.find` has one, `+0.0` elsewhere: the same words when it succeeds, the same
+refusal (`ValueError` / `struct.error`) when it does not; in particular the words of the two branches agree
+(`encMatWordsSp = encMatWords`), and so does the ASCII text.  No size hypothesis. -/
+theorem write_sparse_eq_write_dense (add : Nat → Nat → Nat) (e : Endian) (d : Nat) (lay : Layout) (name : List Nat)
+    (form : Nat) (A : SpIn) :
+    writeOneWords add e lay (.sp name form A) = writeMatWords e lay (denseMat add name form A) ∧
+      encMatWordsSp add e lay name form A = encMatWords e lay (denseMat add name form A) ∧
+      encMatAsciiSp add d lay name form A = encMatAscii d lay (denseMat add name form A) :=
+  ⟨writeOneWords_dense add e lay (.sp name form A), encMatWordsSp_eq add e lay name form A,
+    encMatAsciiSp_eq add d lay name form A⟩
+
+/-- what the ndarray of a sparse input holds: at `(r, c)` the sum of the values stored there (in storage order)
+unless there is none or the sum is `±0.0`, and then `+0.0` -/
+theorem denseMat_entry (add : Nat → Nat → Nat) (name : List Nat) (form : Nat) (A : SpIn) (r c : Nat)
+    (hr : r < A.rows) (hc : c < A.ncols) :
+    ((denseMat add name form A).cols[c]?.bind (·[r]?)) = some ((foundAt add A r c).getD (0, 0)) ∧
+      (foundAt add A r c = none ↔ ∀ v, sumVals add (valsAt A.trip r c) = some v → v.isZero A.cplx = true) := by
+  constructor
+  · simp [denseMat, denseCol, hr, hc]
+  · unfold foundAt
+    cases sumVals add (valsAt A.trip r c) with
+    | none => simp
+    | some v => by_cases hz : v.isZero A.cplx = true <;> simp [hz]
+
+/-- non-vacuity: a sparse input with a duplicate, an explicit zero and unsorted storage; its ndarray; the three
+layouts written both ways; the COO view and `.toarray()` of a two-string column -/
+example :
+    let A : SpIn := { rows := 4, ncols := 2, cplx := false,
+                      trip := [(3, 0, (5, 0)), (0, 0, (7, 0)), (1, 1, (0, 0)), (0, 0, (7, 0)), (2, 1, (9, 0))] }
+    let add : Nat → Nat → Nat := fun a b => a + b
+    colEntries add A 0 = [(0, (14, 0)), (3, (5, 0))] ∧ colEntries add A 1 = [(2, (9, 0))] ∧
+      (denseMat add [97] 2 A).cols = [[(14, 0), (0, 0), (0, 0), (5, 0)], [(0, 0), (0, 0), (9, 0), (0, 0)]] ∧
+      encMatWordsSp add .little .dense [97] 2 A = encMatWords .little .dense (denseMat add [97] 2 A) ∧
+      encMatWordsSp add .big .bigmat [97] 2 A = encMatWords .big .bigmat (denseMat add [97] 2 A) ∧
+      encMatWordsSp add .big .nonbigmat [97] 2 A = encMatWords .big .nonbigmat (denseMat add [97] 2 A) := by
+  decide
+
+example :
+    let col : List Entry := [(0, 0), (1, 0), (negZero, 0), (3, 0), (0, 0)]
+    storedIdx .dense false col = [1, 2, 3] ∧ storedIdx .bigmat false col = [1, 3] ∧
+      cooList .dense false 0 [col] = [(1, 0, (1, 0)), (2, 0, (negZero, 0)), (3, 0, (3, 0))] ∧
+      cooToDense (fun a b => if a = (0, 0) then pz b else b) 5 1 (cooList .dense false 0 [col])
+        = [[(0, 0), (1, 0), (0, 0), (3, 0), (0, 0)]] ∧
+      decCol .dense false col = [(0, 0), (1, 0), (negZero, 0), (3, 0), (0, 0)] := by
+  decide
+
+example :
+    let z : Mat := { name := [97], form := 2, cplx := false, rows := 3, cols := [[(0, 0), (0, 0), (0, 0)]] }
+    autoOf .nonbigmat z = false ∧ autoOf .bigmat z = true ∧ autoOf .dense z = false ∧
+      (writeFileWords .little [(.nonbigmat, z)]).toOption = encFileWords .little [(.dense, z)] := by
+  decide
+
+/-! ## `write` on its arguments (Model/Op4Input.lean) -/
+
+/-- `np.atleast_2d`: a 0-d input is 1×1, a 1-d input of `n` elements is **1×n**, a 2-d input keeps its
+shape, anything above raises -/
+theorem ensure_2d_shapes (n r c : Nat) (rest : List Nat) :
+    atleast2d [] = some (1, 1) ∧ atleast2d [n] = some (1, n) ∧ atleast2d [r, c] = some (r, c) ∧
+      atleast2d (n :: r :: c :: rest) = none :=
+  ⟨rfl, rfl, rfl, rfl⟩
+
+/-- a 1-d array is written as one row: the matrix handed to the writer has `rows = 1` and one column per
+element (not one column of `n` rows) -/
+theorem vector_input_is_row (close : Entry → Entry → Bool) (add : Nat → Nat → Nat) (name : Name) (form : Nat)
+    (a : NdIn) (n : Nat) (hshape : a.shape = [n]) (hlen : a.elems.length = n) :
+    normOne close add name (some form) (.nd a) =
+      some (.nd { name := name, form := form, cplx := a.cplx, rows := 1,
+                  cols := a.elems.map fun x => [entryOfRaw a.cplx x] }) := by
+  simp only [normOne, hshape, atleast2d, Option.getD_some, colsOfNd_vector a n hlen]
+
+/-- **write_input_normalised.**  Whatever `write` is given — a mapping or lists / single values for names,
+matrices and forms; 0-d, 1-d or 2-d arrays of any real or complex dtype; scipy.sparse matrices — if `prepare`
+succeeds (no array with more than two dimensions) then
+* the binary file is the file the checked ndarray writer `writeFileWords` produces for the *normalised* list
+  `(layout, w.dense)`: 2-d double-precision matrices (`atleast2d`, `Raw.toD`, `denseMat`) with checked names and
+  resolved forms and layouts — the same words or the same refusal — and every ASCII matrix is the text of
+  `encMatAscii` for it;
+* as many matrices are written as the shortest of the three argument lists has entries (`zip`), in order, and
+  the `k`-th one is the `k`-th name (through `_check_write_names` with index `k`), matrix and form. -/
+theorem write_input_normalised (close : Entry → Entry → Bool) (add : Nat → Nat → Nat) (e : Endian) (d : Nat)
+    (opt : Option Layout) (names : NamesArg) (mats : MatsArg) (forms : FormsArg) (ws : List (Layout × WMat))
+    (hprep : prepare close add opt names mats forms = some ws) :
+    writeAllWords add e ws = writeFileWords e (ws.map fun p => (p.1, p.2.dense add)) ∧
+      (∀ p ∈ ws, writeOneAscii add d p.1 p.2 = encMatAscii d p.1 (p.2.dense add)) ∧
+      ws.length = min (plumb names mats forms).1.length
+        (min (plumb names mats forms).2.1.length (plumb names mats forms).2.2.length) ∧
+      ∀ (k : Nat) (p : Layout × WMat), ws[k]? = some p →
+        ∃ n m f, (plumb names mats forms).1[k]? = some n ∧ (plumb names mats forms).2.1[k]? = some m ∧
+          (plumb names mats forms).2.2[k]? = some f ∧ normOne close add (writeName k n) f m = some p.2 ∧
+          p.1 = resolveLayout opt p.2.isSparse p.2.rows := by
+  refine ⟨writeAllWords_dense add e ws, fun p _ => writeOneAscii_dense add d p.1 p.2, ?_, ?_⟩
+  all_goals
+    unfold prepare at hprep
+    dsimp only at hprep
+    split at hprep
+    · cases hprep
+  · have h := (mapM_some_get _ _ ws hprep).1
+    rw [h, zip3_length, checkNames_length]
+  · intro k p hp
+    obtain ⟨x, hx, hfx⟩ := (mapM_some_get _ _ ws hprep).2 k p hp
+    obtain ⟨h1, h2, h3⟩ := zip3_get _ _ _ k x hx
+    rw [checkNames_get] at h1
+    cases hn : (plumb names mats forms).1[k]? with
+    | none => rw [hn] at h1; cases h1
+    | some n =>
+      rw [hn] at h1
+      simp only [Option.map_some, Nat.zero_add, Option.some.injEq] at h1
+      refine ⟨n, x.2.1, x.2.2, rfl, h2, h3, ?_⟩
+      obtain ⟨xn, xm, xf⟩ := x
+      simp only at h1 hfx ⊢
+      cases hno : normOne close add xn xf xm with
+      | none => simp [hno] at hfx
+      | some w =>
+        simp only [hno, Option.map_some, Option.some.injEq] at hfx
+        subst hfx
+        subst h1
+        exact ⟨hno, rfl⟩
+
+/-- the plumbing of the three argument forms: a mapping contributes its items in order with the form from a
+`(matrix, form)` value; otherwise single values become one-element lists and `forms=None` one `None` per name -/
+theorem plumb_spec (items : List (Name × DictVal)) (ns : List Name) (n : Name) (ms : List MatIn) (m : MatIn)
+    (f : Nat) (fs : List (Option Nat)) (mats : MatsArg) (forms : FormsArg) :
+    (plumb (.dict items) mats forms).1 = items.map (·.1) ∧
+      plumb (.list ns) (.list ms) .none = (ns, ms, List.replicate ns.length none) ∧
+      plumb (.one n) (.one m) (.one f) = ([n], [m], [some f]) ∧
+      plumb (.list ns) (.list ms) (.list fs) = (ns, ms, fs) :=
+  ⟨rfl, rfl, rfl, rfl⟩
+
+/-- every `write` call replaces the file (`open(filename, "wb")`): after any sequence of calls the file holds
+what the last call wrote -/
+theorem write_replaces_file {α} (init : List α) (calls : List (List α)) (last : List α) :
+    fileAfter init (calls ++ [last]) = last := by
+  induction calls with
+  | nil => rfl
+  | cons c t ih =>
+    cases t with
+    | nil => rfl
+    | cons c2 t2 => simpa [fileAfter] using ih
+
+/-- non-vacuity of the input theorems: a dictionary with a float32 vector, an integer scalar and a `(matrix,
+form)` pair; `forms` shorter than `names` drops the rest -/
+example :
+    let v : MatIn := .nd { shape := [3], cplx := false, elems := [(.f32 0x3FC00000, .f64 0), (.int 0, .f64 0), (.int (-2), .f64 0)] }
+    let s : MatIn := .nd { shape := [], cplx := false, elems := [(.bool true, .f64 0)] }
+    let close : Entry → Entry → Bool := fun a b => a == b
+    let add : Nat → Nat → Nat := fun a b => a + b
+    (prepare close add none (.dict [([118], .mat v), ([49], .pair s (some 9))]) (.list []) .none).map
+        (fun ws => ws.map fun p => (p.1, p.2.dense add)) =
+      some [(.dense, { name := [118], form := 2, cplx := false, rows := 1,
+                       cols := [[(0x3FF8000000000000, 0)], [(0, 0)], [(0xC000000000000000, 0)]] }),
+            (.dense, { name := [109, 49], form := 9, cplx := false, rows := 1, cols := [[(0x3FF0000000000000, 0)]] })] ∧
+      ((prepare close add none (.list [[97], [98]]) (.list [v, s]) (.list [some 1])).map List.length) = some 1 ∧
+      prepare close add none (.one [97]) (.one (.nd { shape := [1, 1, 1], cplx := false, elems := [] })) .none = none := by
+  decide +kernel
+
+/-! ## The last step of the ASCII round trip: `float(decimal)`
+
+`Model/Op4AsciiBits.lean`: `decBits x` is the double CPython's `float()` returns for the exact decimal `x` (the
+correctly rounded `PyFloat.toBits`). -/
+
+/-- **read_back_bits.**  A *normal* double printed with `digits ≥ 16` (17 or more significant digits) reads back
+bit-identical: the field `fmtE d b` denotes the decimal `decOf d b` (`field_roundtrip`), which lies within half a
+unit of its last digit of the double (`ascii_value_half_unit`), and that is less than half (at the bottom of a
+binade: a quarter) of the spacing of the doubles there, so round-to-nearest returns the double. -/
+theorem read_back_bits (d b : Nat) (hd : 16 ≤ d) (hd' : d ≤ 5000) (hb : IsNormal b) :
+    (pyFloat? (fmtE d b)).map decBits = some b := by
+  rw [field_roundtrip d b (by omega), Option.map_some, decBits_decOf_normal d b hd hd' hb]
+
+/-- **read_back_bits, subnormals and zeros**: a subnormal double (exponent field 0) and `±0.0` read back
+bit-identical too — the spacing is `2^-1074` whatever the magnitude -/
+theorem read_back_bits_subnormal (d b : Nat) (hd : 16 ≤ d) (hd' : d ≤ 5000) (hb64 : b < 2 ^ 64)
+    (hef : b / 2 ^ 52 % 2048 = 0) : (pyFloat? (fmtE d b)).map decBits = some b := by
+  rw [field_roundtrip d b (by omega), Option.map_some]
+  by_cases hmf : b % 4503599627370496 = 0
+  · rw [decBits_decOf_zero d b hd' hb64 (by norm_num at hef; omega)]
+  · rw [decBits_decOf_subnormal d b hd hd' hb64 (by norm_num at hef; exact hef) hmf]
+
+/-- every finite double: `digits ≥ 16` makes the ASCII round trip of a value exact -/
+theorem read_back_bits_finite (d b : Nat) (hd : 16 ≤ d) (hd' : d ≤ 5000) (hb64 : b < 2 ^ 64)
+    (hfin : isFiniteD b = true) : (pyFloat? (fmtE d b)).map decBits = some b := by
+  by_cases hef : b / 2 ^ 52 % 2048 = 0
+  · exact read_back_bits_subnormal d b hd hd' hb64 hef
+  · apply read_back_bits d b hd hd'
+    refine ⟨hb64, ?_, ?_⟩
+    · norm_num at hef; omega
+    · unfold isFiniteD at hfin
+      have : b / 4503599627370496 % 2048 ≠ 2047 := by simpa using hfin
+      omega
+
+/-- 16 significant digits are not enough: `0.30000000000000004` printed with `digits = 15` reads back as `0.3`;
+with `digits = 16` it reads back as itself (non-vacuity of `read_back_bits`, also at the bottom of a binade and
+for the smallest normal and a subnormal double) -/
+theorem read_back_needs_17 :
+    decBits (decOf 15 0x3FD3333333333334) = 0x3FD3333333333333 ∧
+      decBits (decOf 16 0x3FD3333333333334) = 0x3FD3333333333334 ∧ IsNormal 0x3FD3333333333334 ∧
+      decBits (decOf 16 0x4340000000000000) = 0x4340000000000000 ∧
+      decBits (decOf 16 0x0010000000000000) = 0x0010000000000000 ∧
+      decBits (decOf 16 0x8000000000000001) = 0x8000000000000001 := by
+  refine ⟨by decide +kernel, by decide +kernel, ⟨by decide, by decide, by decide⟩, by decide +kernel,
+    by decide +kernel, by decide +kernel⟩
+
+/-! ## `op4.dir` on ASCII files -/
+
+/-- **dir_matches_load_ascii.**  For every non-empty list of matrices written by the ASCII writer with `d`
+digits (`1 ≤ d ≤ 73`; the hypotheses of `file_roundtrip_ascii`), `op4.dir` — `_skipop4_ascii`, which counts
+lines from the column and string headers without reading a value — lists exactly what `op4.load` returns:
+per matrix, in file order, the name field, `|rows|`, the columns, form and type (`ADec.listing`).  The listing
+itself (`dirAscii … = some (ms.map listingOf)`) does not need the values to fit their fields: the skipper never
+slices a value line. -/
+theorem dir_matches_load_ascii (d : Nat) (hd : 1 ≤ d) (hd' : d ≤ 73) (ms : List (Layout × Mat)) (hne : ms ≠ [])
+    (hok : ∀ p ∈ ms, MatOK d p) :
+    dirAscii (encFileAscii d ms) = some (ms.map listingOf) ∧
+      ∃ ds, loadAscii (encFileAscii d ms) = some ds ∧ dirAscii (encFileAscii d ms) = some (ds.map ADec.listing) := by
+  have hp : 1 ≤ perline d := by
+    unfold perline numlen numlenBase expdigits lineWidth
+    exact (Nat.le_div_iff_mul_le (by omega)).2 (by omega)
+  have hdir := dirAscii_enc d hp ms hne fun p hp' => ⟨(hok p hp').1, (hok p hp').2.1⟩
+  obtain ⟨ds, hds, hrel⟩ := loadAscii_enc d hd hp ms hne hok
+  exact ⟨hdir, ds, hds, by rw [hdir, listing_of_decs d ms ds hrel]⟩
+
+/-- non-vacuity: the listing of a two-matrix file, one of them bigmat (negative rows in the file) -/
+example :
+    let m1 : Mat := { name := [75, 97], form := 2, cplx := false, rows := 4,
+                      cols := [[(0x3FF8000000000000, 0), (0, 0), (0x4000000000000000, 0), (0, 0)]] }
+    let m2 : Mat := { name := [66], form := 6, cplx := true, rows := 1, cols := [[(0x3FF0000000000000, 0x4000000000000000)]] }
+    dirAscii (encFileAscii 9 [(.bigmat, m1), (.dense, m2)]) =
+      some [("KA      ".toList, 4, 1, 2, 2), ("B       ".toList, 1, 1, 6, 4)] := by
+  decide +kernel
+
+/-- **sparse_views_ascii.**  The sparse views of the ASCII reader on a written file (hypotheses of
+`file_roundtrip_ascii`): per matrix, `sparse=True` returns the triplets `cooListA` — the stored rows of
+`storedIdx_spec`, column by column, each with the printed decimal(s) `aEntry d cplx x` of the stored element —
+the column reader is `layOf` and `sparse=None` resolves to `autoOf` exactly as for binary files
+(`sparse_auto_rule`); all on top of `ADecOf` (`file_roundtrip_ascii`). -/
+theorem sparse_views_ascii (d : Nat) (hd : 1 ≤ d) (hd' : d ≤ 73) (ms : List (Layout × Mat)) (hne : ms ≠ [])
+    (hok : ∀ p ∈ ms, MatOK d p) :
+    ∃ ds, loadAscii (encFileAscii d ms) = some ds ∧
+      List.Forall₂ (fun (p : Layout × Mat) (a : ADec) => ADecOf d p a ∧ a.layout = layOf p.1 p.2 ∧
+        a.sparseAuto = autoOf p.1 p.2 ∧ cooOfPutsA a.puts = cooListA d p.1 p.2.cplx 0 p.2.cols) ms ds := by
+  have hp : 1 ≤ perline d := by
+    unfold perline numlen numlenBase expdigits lineWidth
+    exact (Nat.le_div_iff_mul_le (by omega)).2 (by omega)
+  exact loadAscii_encX d hd hp ms hne hok
 
 end PyYetiVerif.C04
